@@ -23,7 +23,7 @@ for sid in seeds:
         d = subprocess.run(['/venv/bin/python', str(SEEDED / sid / 'demo.py'), str(S)], capture_output=True, text=True, timeout=600)
         res = {'demo_exit_with_change': d.returncode, 'checks': {}}
         for c in [prop] + extra:
-            for tier in ('quick', 'thorough'):
+            for tier in (('quick',) if os.environ.get('SEED_QUICK_ONLY') else ('quick', 'thorough')):
                 t0 = time.time()
                 env = dict(os.environ, PFST_REPO=str(S), VERIF_EVIDENCE_DIR=str(S / 'evidence'))
                 (S / 'evidence').mkdir(exist_ok=True)
